@@ -14,3 +14,4 @@ def run(ck):
     matrix.r7_whole_w_tested(ck, P)
     matrix.r8_forward_reverse_order(ck, P)
     wide128.r9_negate_128(ck, P)
+    matrix.r10_affine_helper_precondition(ck, P)
